@@ -41,8 +41,10 @@ def write(z, v1_times=None, indicators=False, counts=None):
     """serialise; for version ≥ 2 the v1 block holds the 32-bit-representable transitions
     (or `v1_times`, a list of (time, idx)) like zic -b fat, or nothing like -b slim when v1_times == []"""
     n = len(z.types)
-    isstd = bytes(n) if indicators else b''
-    isut = bytes(n) if indicators else b''
+    # indicators: True (both arrays), 'std' (standard/wall only, what zic writes for "2:00s" rules without
+    # UT rules), 'ut' (UT/local only); the two counts are independent in the header
+    isstd = (bytes([1]) * n if indicators == 'std' else bytes(n)) if indicators in (True, 'std') else b''
+    isut = bytes(n) if indicators in (True, 'ut') else b''
     if z.version == 1:
         return _header(1, len(z.times), n, len(z.abbrs), 0, len(isstd), len(isut)) + _block(z.times, z.idxs, z.types, z.abbrs, 4, isstd, isut)
     if v1_times is None:
